@@ -854,9 +854,11 @@ def init_results_checked(ctx, tag):
                 # handed by mutable reference to a function / closure that may replace it (`renew(plugin)` doing plugin.reset(create()))
                 nd_ = f.nodes[i]
                 pts_ = nd_.get("ptypes") or []
+                if nd_.get("cname") in ("move", "forward", "addressof", "swap", "exchange") or i in keeps:
+                    continue        # casts and the keeping call itself do not re-create anything
                 for k_, a_ in enumerate(nd_.get("args", [])):
                     an_ = f.nodes[f.strip(a_)]
-                    if an_.get("k") == "ref" and an_.get("name") == V and k_ < len(pts_) and pts_[k_].rstrip().endswith("&") and not pts_[k_].lstrip().startswith("const "):
+                    if an_.get("k") == "ref" and an_.get("name") == V and k_ < len(pts_) and pts_[k_].rstrip().endswith("&") and not pts_[k_].rstrip().endswith("&&") and not pts_[k_].lstrip().startswith("const "):
                         ev.setdefault(i, []).append(("clear", "refused"))
             for d_ in f.all("decl"):
                 # a declaration inside a loop body makes a fresh object on every iteration
@@ -914,6 +916,29 @@ def ruleset_wiring(ctx, tag, settings):
             ctx.check(_names_agree(fld, src), "%s:wiring:ctor-init:%s@%d" % (tag, fld, c.line), "name agreement (positional wiring)", c.loc(),
                       "%s is initialised from the parameter of the same name (%s)" % (fld, src),
                       "%s is initialised from '%s': a same-typed neighbour was wired to the wrong field" % (fld, src))
+    # a constructor that delegates to another one hands every setting on: each setting parameter appears among the delegation's
+    # arguments at the position of the same-named parameter of the target constructor (a trailing DEFAULTED parameter that is simply
+    # left out silently falls back to the default: prekill_hook_timeout = 5, post_action_delay = 15)
+    all_ctors = [f for f in P.fns.values() if f.pq == "Oomd::Engine::Ruleset::Ruleset" and f.kind == "ctor"]
+    for c in ctors:
+        for ini in c.d.get("inits", []):
+            if ini.get("field") != "<base>" or "n" not in ini:
+                continue
+            dn = c.nodes[c.strip(ini["n"])]
+            dargs = dn.get("args", dn.get("kids", []))
+            targets = [t for t in all_ctors if t is not c and len(t.params) >= len(dargs)]
+            tgt = min(targets, key=lambda t: len(t.params)) if targets else None
+            for prm in c.params:
+                if not any(_names_agree(prm["name"], s_) for s_ in settings):
+                    continue
+                n += 1
+                pos = [k for k, a in enumerate(dargs) if _names_agree(c.text(a), prm["name"])]
+                ok_ = bool(pos) and tgt is not None and pos[0] < len(tgt.params) and _names_agree(tgt.params[pos[0]]["name"], prm["name"])
+                ctx.check(ok_, "%s:wiring:ctor-delegation:%s@%d" % (tag, prm["name"], c.line), "name agreement (positional wiring)", c.loc(),
+                          "the delegating constructor hands %s on at the position of the target's parameter of that name" % prm["name"],
+                          "the Ruleset constructor at line %d delegates without passing its parameter '%s' on (or at the wrong position): the target constructor's "
+                          "default applies and the configured value is dropped for every ruleset built through this constructor (the per-cgroup instances)"
+                          % (c.line, prm["name"]))
     by_arity = {len(c.params): c for c in ctors}
     for f in P.fns.values():
         for i in f.calls("make_unique", "std::make_unique"):
